@@ -3,7 +3,8 @@
 correspond: (1) corpus; (2) geometry helpers vs the Lean model for ALL k in 1..512 (mode C, complete on that range);
 (3) encoder/decoder netlists vs the Lean `encode`/`decode`: k <= 8 (quick: k <= 6) over ALL data words and ALL
 2^(n+1) decoder input words x enable; k in {11,15,16,26,32,57,64,120,128}: data words x all single flips x all
-(thorough) / sampled (quick) pairs.  The property oracle (c18lib.oracle: direct round-trip demand + independent
+(thorough) / sampled (quick) pairs; every other width 9..128 (thorough) / 4 seeded widths (quick): one random word x
+all single flips x sampled pairs.  The property oracle (c18lib.oracle: direct round-trip demand + independent
 matrix-form Hamming reference) runs on the real code in the same jobs and alone in `search`.
 """
 import os, json, glob
@@ -74,7 +75,7 @@ def netlist_jobs(tier, rng=None):
     if quick:
         others = sorted(rng.sample(others, 4)) if rng is not None else []
     for k in others:
-        J.append((L.job_large, (k, 1 if quick else 2, 40 if quick else 60), {"garbage": 8, "fixed": False, "selfcheck": False}))
+        J.append((L.job_large, (k, 1, 40 if quick else 80), {"garbage": 8, "fixed": False, "selfcheck": False}))
     for k in range(1, (6 if quick else 8) + 1):
         J.append((L.job_small, (k,), {}))
     for k in LARGE_KS:
@@ -85,7 +86,8 @@ def netlist_jobs(tier, rng=None):
             J.append((L.job_large, (k, 1, None), {"garbage": 64, "fixed": False}))
             J.append((L.job_large, (k, 1, None), {"garbage": 64, "fixed": False}))
             J.append((L.job_large, (k, 1, None), {"garbage": 0, "fixed": "zero"}))
-            J.append((L.job_large, (k, 1, None), {"garbage": 0, "fixed": "ones"}))
+            if k < 100:
+                J.append((L.job_large, (k, 1, None), {"garbage": 0, "fixed": "ones"}))
     # most expensive first (cost ~ cases x width)
     def cost(j):
         if j[0] is not L.job_large:
